@@ -348,6 +348,7 @@ def rule_filtered(ctx):
 def rules(tier):
     from . import carry, precision, layout, c04, zeroskip
     return [zeroskip.make_rule("R-C11-zeroskip", lambda f: f["d"]["krate"] == "linfa_elasticnet" and f["d"]["name"] in ("coordinate_descent", "block_coordinate_descent"), ("r",), 4, "the residual in the coordinate descents"),
+            zeroskip.make_exact_rule("R-C11-scale", lambda f: f["d"]["krate"] == "linfa_elasticnet" and f["d"]["name"] in ("coordinate_descent", "block_coordinate_descent"), ("r",), 6, "the residual"),
             rule_filtered, carry.make_default_rule("R-C11-default", {"linfa_elasticnet", "linfa_linear"}, 1),
             rule_intercept, rule_zero_terms, rule_stop, rule_ols,
             carry.make_clone_rule("R-C11-clone", {"linfa_elasticnet", "linfa_linear"}, 6), carry.make_setter_rule("R-C11-override", {"linfa_elasticnet", "linfa_linear"}, 4),
